@@ -18,6 +18,11 @@ def is_test_body(b):
 
 
 def run(R):
+    _run15(R)
+    r6(R)
+
+
+def _run15(R):
     prog = R.prog
     R.rule("C15-R1", "writer sets (whole workspace): Dictionary.{string_to_id,id_to_string,next_id} and the three "
                      "QuotedTripleStore fields are mutated only by their own new/encode/merge")
@@ -534,3 +539,46 @@ def _wraps(b, op, target_local, depth=0):
     if d and d[0] == "call" and d[2].name() == "new" and len(d[2].args) == 1:
         return _wraps(b, d[2].args[0], target_local, depth + 1)
     return False
+
+
+# ---------------------------------------------------------------- R6 decoding is a function of (id, stores)
+
+def r6(R):
+    from lib import guards as G
+    prog = R.prog
+    R.rule("C15-R6", "decoding is a function of the identifier and the stores alone: the recursive decoders carry no mutable state that can veto "
+                     "a component - or, if a visited set is threaded through the recursion, an identifier entered into it is removed again on "
+                     "every path that yields a value, so a term that contains the same quoted triple twice decodes like any other")
+    fam = []
+    for b in prog.bodies.values():
+        if b.crate not in ("shared", "kolibrie") or b.is_closure or "::tests::" in b.key:
+            continue
+        if not (b.name.startswith("decode") and (b.file.endswith("dictionary.rs") or b.file.endswith("quoted_triple_store.rs") or b.file.endswith("sparql_database.rs"))):
+            continue
+        fam.append(b)
+    R.floor("C15-R6", "decoder bodies", len(fam), 4)
+    for b in sorted(fam, key=lambda x: x.key):
+        R.saw(b)
+        muts = [i for i in range(1, b.nargs + 1) if b.local_ty(i).startswith("&mut")]
+        if not muts:
+            R.ob("C15-R6", "pure:" + b.short, "%s takes no mutable state" % b.short, True, where=b.where())
+            continue
+        for i in muts:
+            ty = b.local_ty(i)
+            vetoes = [c for c in b.calls() if c.name() in ("insert", "contains", "contains_key") and c.args and b.alias_root(c.args[0]) == i]
+            if not vetoes:
+                R.ob("C15-R6", "state:%s:%d" % (b.short, i), "%s's mutable parameter `%s` is not consulted to reject a component" % (b.short, b.local_name(i)), True, where=b.where())
+                continue
+            removes = [c for c in b.calls() if c.name() in ("remove", "take", "pop", "clear", "truncate") and c.args and b.alias_root(c.args[0]) == i]
+            somes = {bb for bb, k, pl, rv, st in b.assigns() if rv["rv"] == "aggregate" and rv.get("variant") == "Some"}
+            ins = [c for c in vetoes if c.name() == "insert"]
+            bad = False
+            for c in ins:
+                reach = b.reach_from(b.succ(c.bb), avoid={r.bb for r in removes})
+                if reach & somes:
+                    bad = True
+            ok = bool(ins) and not bad and bool(removes) or (not ins)
+            R.ob("C15-R6", "restored:%s:%d" % (b.short, i), "an identifier that %s enters into `%s` is removed again before a value is returned"
+                 % (b.short, b.local_name(i)), ok, where=b.where(ins[0].ln if ins else None),
+                 detail=None if ok else "the set remembers every quoted triple expanded during the whole call, not just the current path: the second "
+                 "occurrence of a shared sub-term is refused and a well-formed term decodes to nothing (`unknown` in query results)")
